@@ -231,7 +231,7 @@ def run_cases(ctx, n_models, n_states, seed_offset=0, spec_only=False):
   lines, plan = [], []            # plan: (kind of line, model, payload)
   spec_failures = []
   stack_hist, vel_meas = {}, {}
-  n_extra = max(1, n_models // 5) if not spec_only else 0
+  n_extra = max(2, n_models // 8) if not spec_only else 0
   models = []
   for mi in range(n_models + n_extra):
     in_q = mi < n_models
@@ -417,7 +417,7 @@ def correspond(ctx):
   n_models = ctx.budget(40, 400)
   r = run_cases(ctx, n_models, 3)
   t1 = time.time()
-  p = run_pipelines(ctx, ctx.budget(5, 40))
+  p = run_pipelines(ctx, ctx.budget(4, 40))
   t2 = time.time()
   m0 = r['models'][0]
   distinct = len({(m.sys.link_types, tuple(m.sys.link_parents), tuple(m.kinds)) for m in r['models']})
@@ -426,7 +426,7 @@ def correspond(ctx):
       evaluations=r['evaluations'] + p['evaluations'],
       distinct_nontrivial=distinct,
       rule=f'{n_models} generator forests inside the quantifier (orthogonal=True, kinds one_kind / slides_then_hinge, either '
-           'handedness, 1-6 links, free/world roots, body offsets/rotations, anchor offsets) + 20% forests with mixed stacks '
+           'handedness, 1-6 links, free/world roots, body offsets/rotations, anchor offsets) + 12% forests with mixed stacks / synthetic dof.motion '
            '(model<->implementation legs only) x 3 states (q in [-1.2,1.2], unit root quaternions, qd in [-1,1]); per state: '
            'world_to_joint and inverse vs Lean on forward-generated and on random inputs, the Lean round trip vs the real one, '
            'and the round trip itself vs (q, qd); plus one spring and one positional step on small forests; distinct = distinct '
